@@ -68,7 +68,7 @@ pub fn run_ledger(text: &str, entry_line: Vec<usize>, account: &str, txs: &[impt
     }
     let names = Names { accounts: accounts.clone(), commodities: comms.clone() };
     let n_entries = entry_line.len();
-    let r = Rendered { text: text.to_string(), entry_line, posting_off: vec![Vec::new(); n_entries], posting_span: Vec::new() };
+    let r = Rendered { text: text.to_string(), entry_line, entry_last_line: Vec::new(), posting_off: vec![Vec::new(); n_entries], posting_span: Vec::new() };
     match ledger::run_process(&[("/main.ledger".to_string(), text.to_string())], &names, Some(&r)) {
         Obs::Ok { balance, .. } => {
             let idx = accounts.iter().position(|a| a == account);
